@@ -843,6 +843,10 @@ pub fn try_add_op(r: &mut Rng, cfg: &GenCfg, st: &mut GenState) {
         }
         cands.push((OpKind::CNeg, vec![a]));
         cands.push((OpKind::CCube, vec![a]));
+        // an alias of a user-defined node (same node, shared slot): built-in `sum(0)`
+        if r.chance(1, 3) {
+            cands.push((OpKind::Sum(0), vec![a]));
+        }
     } else {
         if compat {
             cands.push((OpKind::Add, vec![a, b]));
